@@ -139,6 +139,7 @@ def random_scenario(rng: random.Random, focus: str) -> tuple[dict, list[dict]]:
         "strat": strat,
         "legacy": [n for n in names if rng.random() < 0.3],
         "budget": rng.choice([-1, -1, 0, 1, 2, 5]),
+        "bW": rng.choice([100000, 100000, 2, 5, 9, 30]),
         "handler": rng.random() < 0.35,
         "abort": rng.random() < 0.4,
         "rc": rng.random() < 0.6,
@@ -176,7 +177,8 @@ def random_scenario(rng: random.Random, focus: str) -> tuple[dict, list[dict]]:
         ev.append({"e": "bsleep", "fault": rng.choice(["none"] * 12 + ["error", "error", "kbd", "cancel"])})
         ev.append({"e": "sleep", "adv": rng.choice(["exact", "exact", "exact", "over1", "over4", "none"]
                                                     + (["kbd", "cancel"] if rng.random() < 0.05 else []))})
-    ev += [{"e": "deliver", "mode": mode} for _ in range(n_runs)]
+    ev += [{"e": "deliver", "mode": mode, "gap": rng.choice([0, 0, 1, 3, 8]) if i + 1 < n_runs else 0}
+           for i in range(n_runs)]
     return cfg, ev
 
 
@@ -236,7 +238,7 @@ WALL = [{"entry": "Retry", "wall": "jump", "wallgroup": "s"},
         {"entry": "AsyncRetry", "wall": "jump", "wallgroup": "a"},
         {"entry": "AsyncRetry", "wall": "frozen", "wallgroup": "a"}]
 
-for _p in ("C01", "C02", "C03", "C04", "C05", "C11", "C13", "C14", "C16"):
+for _p in ("C01", "C02", "C03", "C04", "C05", "C10", "C11", "C13", "C14", "C16"):
     profile(_p, mc=f"RetryMC_{_p}.cfg", export=f"RetryMC_{_p}x.cfg",
             variants=WALL if _p == "C02" else FOUR,
             n_random={"quick": 1500, "thorough": 40000})
